@@ -160,11 +160,13 @@ def accepted(T, s: str) -> bool:
     return True
 
 
-def reader_signature(T, g: str, exc, label=None) -> str:
+def reader_signature(T, g: str, exc, label=None, container=False) -> str:
     """Defect class of a rejected reader formula: the rejection disappears when exactly the named
     construct is taken out of the text."""
     if not isinstance(exc, T.TokenizerError):
         return "reader-formula-foreign-exception:" + type(exc).__name__
+    if container and label and label + "::" in g and accepted(T, g.replace(label + "::", "x::")):
+        return "reader-formula-rejected:container-name-unquoted"  # table or sheet name  T#1::  Tom's::  printed bare
     if label and any(ch in label for ch in '"#{})') and label in g and accepted(T, g.replace(label, "x")):
         return "reader-formula-rejected:unquoted-special-name"   # header label  a#b  printed bare
     h = SCOPE_BEFORE_QUOTE.sub("", g)
@@ -176,12 +178,12 @@ def reader_signature(T, g: str, exc, label=None) -> str:
     return "reader-formula-rejected"
 
 
-def oracle_reader_formula(T, f: str, translate, label=None):
+def oracle_reader_formula(T, f: str, translate, label=None, container=False):
     """A formula text produced by the reader must be accepted, raw and as formula_tokens() feeds it."""
     for g in (f, f.translate(translate)):
         line, items, exc = tok_impl(T, g)
         if items is None:
-            return (reader_signature(T, g, exc, label), f"reader produced {f!r}; Tokenizer({g!r}) raised {type(exc).__name__}: {exc}")
+            return (reader_signature(T, g, exc, label, container), f"reader produced {f!r}; Tokenizer({g!r}) raised {type(exc).__name__}: {exc}")
         r = oracle_string(T, g, line, items, exc)
         if r:
             return r
@@ -229,6 +231,8 @@ LABELS = ["cats", "a+b", "x*y", "50%", "p&q", "a b", "2^n", "it's", "×", 'say "
 def written_recipe_formulas(recipe: dict, path: Path) -> dict:
     """One document written by the library and read back.  -> {formula: [table, row, col]}"""
     from numbers_parser import Document
+    if recipe.get("container"):
+        return written_container_formulas(recipe, path)
     label, dup = recipe["label"], recipe["duplicate_in_other_table"]
     doc = Document(num_header_rows=1, num_header_cols=1)
     t1 = doc.sheets[0].tables[0]
@@ -256,6 +260,83 @@ def written_recipe_formulas(recipe: dict, path: Path) -> dict:
                 f = c.formula
                 if f is not None and f not in out:
                     out[f] = [tb.name, c.row, c.col]
+    return out
+
+
+CONTAINER_NAMES = ["Totals", "Q1 2024", "a+b", "Tom's", 'T "x', "T#1", "T{", "T)", "P&L", "50%", "a:b", "x,y"]
+
+
+def written_container_formulas(recipe: dict, path: Path) -> dict:
+    """A document whose formulas point into another table (and into a table of another sheet); that table (sheet) is then
+    given the name `label` - the reader prints the name in front of every such reference.  -> {formula: [table, row, col]}"""
+    from numbers_parser import Document
+    name, which = recipe["label"], recipe["container"]
+    doc = Document(num_header_rows=1, num_header_cols=1)
+    t1 = doc.sheets[0].tables[0]
+    t2 = doc.sheets[0].add_table("Other")
+    doc.add_sheet("Second", "Other")          # a table of the same name elsewhere: the sheet is printed too
+    t3 = doc.sheets[1].tables[0]
+    for t in (t2, t3):
+        for r in range(1, 4):
+            for c in range(1, 3):
+                t.write(r, c, r * c)
+    for r, f in enumerate(["SUM(Other::B2:B3)", "Other::B2+1", "SUM(Second::Other::B2:C3)", "Second::Other::C2&\"x\""], 1):
+        t1.write(r, 1, 0)
+        t1.cell(r, 1).formula = f
+    if which == "table":
+        t2.name = name
+        t3.name = name
+    else:
+        doc.sheets[1].name = name
+    doc.save(str(path))
+    back = Document(str(path))
+    out = {}
+    for tb in back.sheets[0].tables:
+        for row in tb.iter_rows():
+            for c in row:
+                f = c.formula
+                if f is not None and f not in out:
+                    out[f] = [tb.name, c.row, c.col]
+    return out
+
+
+def placeholder_formulas() -> dict:
+    """What the reader prints for a stored formula it cannot fully decode (a function id it does not know, a formula key
+    that is not in the table's formula store) - the way tests/test_formulas.py provokes them.  -> {formula: [why, fixture]}"""
+    from numbers_parser import Document
+    out = {}
+    for fx in ("simple-func.numbers", "create-formulas.numbers"):
+        p = common.REPO / "tests" / "data" / fx
+        if not p.exists():
+            continue
+        doc = Document(str(p))
+        for sh in doc.sheets:
+            for tb in list(sh.tables)[:2]:
+                bds = doc._model.objects[tb._table_id].base_data_store
+                if not bds.formula_table.identifier:
+                    continue
+                for entry in doc._model.objects[bds.formula_table.identifier].entries[:12]:
+                    for node in entry.formula.AST_node_array.AST_node:
+                        if node.HasField("AST_function_node_index"):
+                            node.AST_function_node_index = 999
+                hit = 0
+                for row in tb.iter_rows():
+                    for c in row:
+                        try:
+                            f = c.formula
+                        except Exception:  # noqa: BLE001
+                            continue
+                        if f is not None and "!" in f and f not in out:
+                            out[f] = [{"label": None, "placeholder": "unknown function id"}, fx]
+                        if f is not None and hit < 2:
+                            hit += 1
+                            c._formula_id = 999 + hit
+                            try:
+                                g = c.formula
+                            except Exception:  # noqa: BLE001
+                                continue
+                            if g is not None and g not in out:
+                                out[g] = [{"label": None, "placeholder": "missing formula key"}, fx]
     return out
 
 
@@ -352,6 +433,18 @@ def written_document_formulas(ctx: Ctx):
                     continue
                 for f, where in got.items():
                     forms.setdefault(f, [recipe] + where)
+        for k, name in enumerate(CONTAINER_NAMES):
+            for which in ("table", "sheet"):
+                recipe = {"label": name, "container": which}
+                try:
+                    got = written_recipe_formulas(recipe, ctx.tmp / f"c18_container_{k}_{which}.numbers")
+                except Exception as e:  # noqa: BLE001
+                    ctx.dist("written_document_recipe_failed")
+                    ctx.notes.append(f"written-document recipe {recipe} failed: {type(e).__name__}: {e}"[:300])
+                    continue
+                ctx.dist("container_name_formulas", len(got))
+                for f, where in got.items():
+                    forms.setdefault(f, [recipe] + where)
         for fx in (["create-formulas.numbers"] if ctx.quick else ["create-formulas.numbers", "issue-54.numbers", "test-all-formulas.numbers", "test-extra-formulas.numbers"]):
             if not (common.REPO / "tests" / "data" / fx).exists():
                 continue
@@ -364,6 +457,15 @@ def written_document_formulas(ctx: Ctx):
             ctx.dist("relabelled_fixture_formulas", len(got))
             for f, where in got.items():
                 forms.setdefault(f, where)
+        try:
+            got = placeholder_formulas()
+        except Exception as e:  # noqa: BLE001
+            ctx.dist("written_document_recipe_failed")
+            ctx.notes.append(f"placeholder formulas failed: {type(e).__name__}: {e}"[:300])
+            got = {}
+        ctx.dist("placeholder_formulas", len(got))
+        for f, where in got.items():
+            forms.setdefault(f, where)
         recipe = {"label": None, "string_literals": True}
         try:
             got = written_string_formulas(ctx.tmp / "c18_written_strings.numbers")
@@ -535,7 +637,7 @@ def run(ctx: Ctx) -> int:
         for f, where in fm.items():
             ctx.count("reader_acceptance")
             label = where[0].get("label") if src == "written" else None
-            r = oracle_reader_formula(T, f, OPERATOR_MAP, label)
+            r = oracle_reader_formula(T, f, OPERATOR_MAP, label, bool(src == "written" and where[0].get("container")))
             if r is None and src == "written" and where[0].get("string_literals"):
                 # the text was written through the tokenizer: what the reader prints for it must cut into as many tokens
                 # (one per literal) - a literal printed with its quotes unescaped would be split or glued
@@ -622,7 +724,7 @@ def replay(path: str) -> int:
                 print("replay: the library wrote the document, read it back and produced this text")
             where = case.get("where") or [None]
             label = where[0].get("label") if isinstance(where[0], dict) else None
-            r = oracle_reader_formula(T, s, OPERATOR_MAP, label)
+            r = oracle_reader_formula(T, s, OPERATOR_MAP, label, bool(isinstance(where[0], dict) and where[0].get("container")))
         else:
             print(f"replay: Tokenizer({s!r})")
             r = oracle_string(T, s)
